@@ -55,11 +55,15 @@ def offset(shape, salt=0, seed=None):
     """spread ~1 around a mean of 1e3 (cancellation-prone for one-pass variance formulas; judged in float32)"""
     return 1e3 + generic(shape, salt, seed)
 
+def nonneg0(shape, salt=0, seed=None):
+    """non-negative values with exact zeros (boundary of the domain of sqrt / log / fractional powers)"""
+    return np.abs(with_zeros(shape, salt, seed))
+
 def zeros(shape, salt=0, seed=0):
     """an all-zero operand (a freshly zero-initialised bias or weight)"""
     return np.zeros(shape)
 
-PATTERNS = {"zeros": zeros, "offset": offset, "generic": generic, "positive": positive, "prob": prob, "with_zeros": with_zeros, "ties": ties}
+PATTERNS = {"zeros": zeros, "nonneg0": nonneg0, "offset": offset, "generic": generic, "positive": positive, "prob": prob, "with_zeros": with_zeros, "ties": ties}
 
 def make(pattern, shape, salt=0):
     return PATTERNS[pattern](tuple(shape), salt)
